@@ -466,6 +466,33 @@ def check_verified(ctx, sm):
         res, calls, names, accepted = one_call(it, k, where, 'none', 1)
         nrows += 1
         judge(f'{k} candidates, error at {where}: second call after a call whose re-parse accepted all', k, where, res, calls, names, accepted)
+    # the re-parse runs the grammar's actions, and an action may refuse the made-up statement with ParsingException (`Duplicate FROM clause`): that is a candidate
+    # that does not help - not the answer to the user's error.  make_suggestion with the REAL query_is_valid and a parser whose parse() refuses some candidates
+    for k, where in itertools.product((2, 5), ('middle', 'first')):
+        names = [f'KW{ALPHA[i]}' for i in range(k)]
+        lexer = Obj('Lexer', **{n_: n_.lower() for n_ in names})
+        toks = [Obj('Token', type=f'T{i}', value=f'v{i}', index=i * 3, end=i * 3 + 2, lineno=1) for i in range(4)]
+        bad = {'first': toks[0], 'middle': toks[2]}[where]
+
+        def parse(tokens, names=names, toks=toks):
+            cand = [t for t in list(tokens) if not any(t is o for o in toks)]
+            ty = cand[0].attrs.get('type') if cand else None
+            if ty == names[0]:
+                raise Raised('ParsingException', None)
+            return Obj('Select') if ty == names[1] else None
+        parser = Obj('Parser', state=0, statestack=[0], symstack=[], _lrtable=Obj('LRTable', lr_action={0: {}}, lr_goto={0: {}}, defaulted_states={}), error_info=None, parse=parse)
+        self_ = Obj('ErrorHandling', lexer=lexer, parser=parser, tokens=list(toks), bad_token=bad, expected_tokens=list(names))
+        it = Interp.for_file(ctx.src, INIT, {}, {'Token': lambda it_: Obj('Token')})
+        try:
+            res = it.call_function(fn, [self_], {}, Env())
+            res = list(res) if isinstance(res, (list, tuple)) else [res]
+        except Raised as r:
+            res = f'<{r.exc_name}>'
+        nrows += 1
+        ctx.ob('C19.suggestions-verified', f'{k} candidates, error at {where}: the re-parse of one candidate is refused by a grammar action', res == [names[1].lower()],
+               f'make_suggestion gives {res} when the re-parse of the first candidate raises ParsingException and that of the second succeeds; expected [{names[1].lower()!r}]: '
+               f'the exception of a made-up statement must not replace the syntax error of the user\'s statement (which candidate is tried first even depends on the '
+               f'hash seed)', file=INIT, line=fn.lineno, witness='select a from t order by a nulls')
     ctx.ob('C19.suggestions-verified', 'anchor:verified-candidates-are-returned', anchor,
            'make_suggestion never returns the candidates its re-parse accepted (the table above would be vacuous)', file=INIT, line=fn.lineno)
     ctx.setcount('reparse_sites', nrows)
